@@ -674,7 +674,7 @@ func finish(o *hx.Out, h *H, kindKey string) {
 	o.Case("sched", input, res, key)
 	for sig, det := range h.viol {
 		// each property reports its own verdicts: C04 the fence/head ones, C03 the ack/truncate ones
-		mine := strings.HasPrefix(sig, "fenced:") || strings.HasPrefix(sig, "newterm:") || strings.HasPrefix(sig, "restart:term-")
+		mine := strings.HasPrefix(sig, "fenced:") || strings.HasPrefix(sig, "fence:") || strings.HasPrefix(sig, "newterm:") || strings.HasPrefix(sig, "restart:term-")
 		if *focus == "c03" {
 			mine = strings.HasPrefix(sig, "ack:") || strings.HasPrefix(sig, "truncate:") || strings.HasPrefix(sig, "attach:") ||
 				(strings.HasPrefix(sig, "restart:") && !strings.HasPrefix(sig, "restart:term-")) || strings.HasPrefix(sig, "apply:")
